@@ -6,6 +6,7 @@ import Ladim.Model.Grid
 import Ladim.Model.Tracker
 import Ladim.Model.Forcing
 import Ladim.Model.Analytical
+import Ladim.Model.Release
 /-
 Line-protocol driver: one JSON request per input line, one JSON response per output line.
 It only *runs* the executable model definitions of `Ladim.Model.*`; it contains no logic of
@@ -408,11 +409,35 @@ def opAnalytical (j : Json) : R Json := do
     | [x, y] => Json.arr #[pr (getVelocity1 f x y), pr (getVelocity2 f x y dt s), pr (getVelocity4 f x y dt)]
     | _ => .null) pts)
 
+/-! ### C04: release -/
+
+def getRRow (j : Json) : R RRow := do
+  let cols ← getObjPairs (← fld j "cols")
+  pure { time := ← getInt (← fld j "time"), mult := ← getNat (← fld j "mult"),
+         cols := ← cols.mapM (fun (k, v) => do pure (k, ← getVal v)) }
+
+def rrowJ (r : RRow) : Json :=
+  Json.mkObj [("time", intJ r.time), ("cols", Json.mkObj (r.cols.map (fun (k, v) => (k, valJ v))))]
+
+def opRelease (j : Json) : R Json := do
+  let c : RelCfg := { start := ← getInt (← fld j "start"), stop := ← getInt (← fld j "stop"),
+                      dt := ← getInt (← fld j "dt"), rev := ← getBool (← fld j "rev"),
+                      continuous := ← getBool (← fld j "continuous"), freq := ← getInt (← fld j "freq"),
+                      warm := ← getBool (← fld j "warm"), releaseTimeCol := ← getBool (← fld j "release_time_col") }
+  let rows ← getList getRRow (← fld j "rows")
+  let first ← getInt (← fld j "first_step")
+  let n ← getNat (← fld j "nsteps")
+  match Rel.init c rows with
+  | .error e => pure (errJ e)
+  | .ok r =>
+    pure (Json.mkObj [("steps", listJ intJ r.steps), ("total", natJ r.total),
+      ("released", listJ (fun (p : Int × List RRow) => Json.arr #[intJ p.1, listJ rrowJ p.2]) (r.run first n))])
+
 def handlers : List (String × (Json → R Json)) :=
   [("tk", opTk), ("period", opPeriod), ("state", opState), ("outrun", opOutRun), ("genname", opGenName),
    ("forcing", opForcing), ("z2s", opZ2s), ("sdepth", opSdepth), ("sstretch", opSstretch),
    ("sample", opSample), ("grid", opGrid), ("sample2d", opSample2D), ("bilininv", opBilinInv),
-   ("tracker", opTracker), ("roms_sample", opRomsSample), ("diffdisp", opDiffDisp), ("analytical", opAnalytical)]
+   ("tracker", opTracker), ("roms_sample", opRomsSample), ("diffdisp", opDiffDisp), ("analytical", opAnalytical), ("release", opRelease)]
 
 def handle (line : String) : String :=
   match Json.parse line with
